@@ -1020,6 +1020,11 @@ def d_pop(R, recv, args, kw, node):
         val = V(m.t.v, z3.Select(vals, k.z))
         dict_delitem(R, recv, args[0], lab(R, node, "pop"))
         return val
+    if not args[1].is_const and args[1].t.kind == "opaque" and args[1].t.name == "args":
+        # d.pop(key, *args) with an opaque argument pack: the pack is empty (KeyError) or holds one default (returned, unknown here)
+        from .core import fresh
+        R.fail_if(fresh(T.Bool, "pack_empty").z, "KeyError", lab(R, node, "pop"))
+        return fresh(m.t.v, "pack_default")
     return args[1]
 
 
